@@ -145,10 +145,10 @@ func crashAt(c *common.Ctx, s scenario, k int, mode string) {
 	// lint --auto-fix reports a failed write on stderr and still exits 0, so "the
 	// fault fired" is also read off the result: not every file reached its new content
 	fired := r.Killed || r.Exit != 0 || st != "new-complete"
+	c.Count("rlimit_crash_points", 1)
 	if fired {
 		c.NonTrivial()
-	}
-	if fired {
+		c.Count("rlimit_faults_fired", 1)
 		c.Outcome("crash:" + s.Cmd + ":" + kind + ":" + st)
 	} else {
 		c.Outcome("crash:" + s.Cmd + ":limit-not-reached:" + st)
